@@ -11,7 +11,8 @@ use serde_json::{json, Value};
 
 pub const BUILTIN: &[&str] = &["/", "/style.css", "/script.js", "/favicon.svg"];
 pub const ORIGINS: &[Option<&str>] = &[None, Some("https://foo.example")];
-pub const PREFLIGHT: &[&str] = &["none", "method", "method+headers"];
+/// "...:lower" / ":upper": the request's Origin and Access-Control-Request-* header NAMES in that letter case
+pub const PREFLIGHT: &[&str] = &["none", "method", "method+headers", "method+headers:lower", "method+headers:upper"];
 pub const RANGES: &[Option<&str>] = &[None, Some("bytes=0-0")];
 /// "configured": the switch off and every list set; the variants leave the credentials setting
 /// unset (its shipped default is the empty string), off, or not a boolean literal
@@ -69,14 +70,20 @@ pub fn set_mode(mode: &str) {
 
 fn request(case: &Case, method: &str) -> Vec<u8> {
     let mut h: Vec<(&str, &str)> = vec![("Host", "localhost")];
+    let (kind, spelling) = case.preflight.split_once(':').unwrap_or((case.preflight.as_str(), ""));
+    let names: [&str; 3] = match spelling {
+        "lower" => ["origin", "access-control-request-method", "access-control-request-headers"],
+        "upper" => ["ORIGIN", "ACCESS-CONTROL-REQUEST-METHOD", "ACCESS-CONTROL-REQUEST-HEADERS"],
+        _ => ["Origin", "Access-Control-Request-Method", "Access-Control-Request-Headers"],
+    };
     if let Some(o) = &case.origin {
-        h.push(("Origin", o.as_str()));
+        h.push((names[0], o.as_str()));
     }
-    if case.preflight != "none" {
-        h.push(("Access-Control-Request-Method", "POST"));
+    if kind != "none" {
+        h.push((names[1], "POST"));
     }
-    if case.preflight == "method+headers" {
-        h.push(("Access-Control-Request-Headers", "Content-Type"));
+    if kind == "method+headers" {
+        h.push((names[2], "Content-Type"));
     }
     if let Some(r) = &case.range {
         h.push(("Range", r.as_str()));
@@ -170,7 +177,7 @@ pub fn check(case: &Case) -> (String, bool, Vec<(String, String)>) {
                             fails.push((format!("{}:{}:OPTIONS-preflight-max-age-missing", pre, kind), String::new()));
                         }
                     }
-                    if case.preflight == "method+headers" {
+                    if case.preflight.starts_with("method+headers") {
                         let got = opt.get("Access-Control-Allow-Headers").unwrap_or("");
                         if !got.split(',').any(|m| m.trim().eq_ignore_ascii_case("content-type")) {
                             fails.push((format!("{}:{}:OPTIONS-preflight-headers", pre, kind), format!("{:?}", got)));
@@ -185,8 +192,22 @@ pub fn check(case: &Case) -> (String, bool, Vec<(String, String)>) {
     (format!("served-{}", get.code), true, fails)
 }
 
+/// files of length 0, 1, 2 (plain, as a directory index, as an .html fallback)
+pub fn add_small_files(t: &mut TreeSpec) {
+    for (n, c) in [("z0", &b""[..]), ("z1", &b"x"[..]), ("z2", &b"xy"[..])] {
+        t.file(&format!("small/{}.txt", n), c);
+        t.file(&format!("small/{}dir/index.html", n), c);
+        t.file(&format!("small/{}page.html", n), c);
+    }
+}
+
 pub fn targets(tree: &TreeSpec) -> Vec<String> {
     let mut v: Vec<String> = BUILTIN.iter().map(|s| s.to_string()).collect();
+    for n in ["z0", "z1", "z2"] {
+        v.push(format!("/small/{}.txt", n));
+        v.push(format!("/small/{}dir/", n));
+        v.push(format!("/small/{}page", n));
+    }
     for lvl in ["", "lvl/"] {
         for shape in c02::SHAPES.iter().take(2) {
             for i in 0..c02::X_KINDS.len() {
@@ -210,7 +231,8 @@ pub fn targets(tree: &TreeSpec) -> Vec<String> {
 pub fn run(ctx: &mut Ctx) {
     drive::default_config();
     let root = crate::tree::scratch_root("c09");
-    let tree = c02::competition_tree();
+    let mut tree = c02::competition_tree();
+    add_small_files(&mut tree);
     tree.build(&root);
     std::env::set_current_dir(&root).unwrap();
     let ts = targets(&tree);
@@ -251,7 +273,9 @@ pub fn run(ctx: &mut Ctx) {
 pub fn replay(v: &Value) -> Vec<Failure> {
     drive::default_config();
     let root = crate::tree::scratch_root("c09r");
-    c02::competition_tree().build(&root);
+    let mut tree = c02::competition_tree();
+    add_small_files(&mut tree);
+    tree.build(&root);
     std::env::set_current_dir(&root).unwrap();
     let case = Case::from_json(v);
     set_mode(&case.mode);
